@@ -629,4 +629,41 @@ def run(ctx, prog):
                        '(same analysis as C11.R2)')
     from rules import C11 as _C11
     _C11.maintenance_pairing(ctx, prog, 'C10.R9')
+    # ------------------------------------------------------------------ R10
+    ctx.rule('C10.R10', 'a key carries the identity declared WITH it: every insertion into the key table (AuthManager::load_from_file, add_key) stores, under a key, '
+                        'the TenantInfo of the same file entry / the caller\'s argument — not a value looked up by tenant id or shared between keys (enabled and is_admin '
+                        'are per-key flags: a shared record lets a revoked key authenticate and a plain key pass the admin check of /usage); the table installed is '
+                        'the one built')
+    n10 = 0
+    for b in prog.bodies.values():
+        if 'auth::AuthManager::' not in b.id or b.kind != 'AssocFn':
+            continue
+        of10 = flow.Origin(b)
+        for c in b.calls:
+            if not (c.callee and re.search(r'HashMap(<.*>)?::insert$', flow.short(c.callee)) and len(c.args) == 3):
+                continue
+            if 'TenantInfo' not in b.locals[c.args[2]['pl']['l']] if c.args[2].get('k') in ('mv', 'cp') else True:
+                continue
+            n10 += 1
+            kx = flow.render(of10.of_operand(c.args[1]))
+            vx = flow.render(of10.of_operand(c.args[2]))
+            same = False
+            mk = re.match(r'^(.*)→ApiKeyEntry\.key$', kx)
+            if mk and vx == mk.group(1) + '→ApiKeyEntry.tenant_info':
+                same = True
+            if kx == 'arg:key' and vx == 'arg:tenant_info':
+                same = True
+            k10 = sum(1 for x in ctx.instances if x.get('config') == ctx.config and x['rule'] == 'C10.R10' and x['key'].startswith('C10.R10 | %s | key table insert' % b.short))
+            ctx.inst('C10.R10', b.short, 'key table insert #%d stores the TenantInfo declared with the key' % k10, same,
+                     'insert(%s, %s)' % (kx[-70:], vx[-110:]))
+    ctx.floor('C10.R10', 'insertions into the key table', n10, 2, 'load_from_file, add_key')
+    lf = ctx.body('C10.R10', 'AuthManager::load_from_file')
+    if lf is not None:
+        ov10 = flow.Origin(lf, stop_at_vars=True)
+        inst = []
+        for i_, blk in enumerate(lf.blocks):
+            for st in blk['s']:
+                if 'rv' in st and st['pl'].get('p') == ['*'] and 'HashMap<alloc::string::String, ' in lf.locals[st['pl']['l']] and 'TenantInfo' in lf.locals[st['pl']['l']]:
+                    inst.append(flow.render(ov10.of_rvalue(st['rv'], 0, frozenset({-1}))))
+        ctx.inst('C10.R10', lf.short, 'the installed key table is the one built from the file', bool(inst) and set(inst) == {'var:keys'}, 'installed: %s' % sorted(set(inst)))
     ctx.stat('functions_analysed', len(set(i['key'].split(' | ')[1] for i in ctx.instances)))
